@@ -174,6 +174,35 @@ def element_index(P):
     return idx
 
 
+def all_defaults(schema):
+    """coordinate -> coerced default value (or the error class) of every argument and input field that has a default"""
+    from graphql.type import is_input_object_type, is_object_type, is_interface_type
+    from graphql.utilities.coerce_input_value import coerce_default_value
+    out = {}
+
+    def put(coord, iv):
+        if iv.default is None:
+            return
+        try:
+            out[coord] = repr(coerce_default_value(iv))
+        except Exception as e:  # noqa: BLE001
+            out[coord] = "raises " + type(e).__name__
+    for tn, t in schema.type_map.items():
+        if tn.startswith("__"):
+            continue
+        if is_input_object_type(t):
+            for fn, f in t.fields.items():
+                put(f"{tn}.{fn}", f)
+        elif is_object_type(t) or is_interface_type(t):
+            for fn, f in t.fields.items():
+                for an, a in f.args.items():
+                    put(f"{tn}.{fn}({an}:)", a)
+    for d in schema.directives:
+        for an, a in d.args.items():
+            put(f"@{d.name}({an}:)", a)
+    return out
+
+
 def _chunk(seeds):
     from graphql import build_schema, parse, print_schema, validate_schema, extend_schema, lexicographic_sort_schema
     from graphql.utilities import find_schema_changes
@@ -221,6 +250,14 @@ def _chunk(seeds):
                 elif v_ext:
                     out.append({"skipped": "extension result invalid"})
                 else:
+                    # the values that requests see: every default of the original is coerced first (what a request on the
+                    # original schema does), then the defaults of the extended schema must be those of the schema built together
+                    all_defaults(sA)
+                    de, dt = all_defaults(ext), all_defaults(together)
+                    if de != dt:
+                        k0 = next(k for k in dt if de.get(k) != dt[k])
+                        viol.append(("defaults-of-extended-schema-differ-from-building-together", {"where": k0, "extended": repr(de.get(k0))[:120], "together": repr(dt[k0])[:120],
+                                                                                                 "extension": B[:300]}))
                     pe, pt = print_schema(ext), print_schema(together)
                     if pe != pt:
                         k = next((i for i, (a, b) in enumerate(zip(pe, pt)) if a != b), min(len(pe), len(pt)))
